@@ -130,7 +130,9 @@ CHECKS = {
          'with re.fullmatch on the spec-written regex as an independent cross-check; TLC-validated structure-only, '
          'history-free, own-AST, one-leaf-mutant and search = filter-of-walk clauses on the corpus x re-layouts x pure AST.',
          'TLC model checking (QuantMC) + TLC-generated JSON case tables replayed into pfst and re (QuantGen -> QuantTrace) + '
-         'TLC trace validation of recorded match and search executions (MatchTrace)'),
+         'TLC trace validation of recorded match and search executions (MatchTrace) + a TLA+ pattern algebra (SearchAlg: '
+         'denotational Match over type tests / field checks / MOR / MAND / MNOT, model-checked pre-filter model) whose '
+         'TLC-generated terms are replayed into search()/match() and validated by SearchAlgTrace'),
  'C18': ('model_checking', '4-C18',
          'Explicit TLA+ reference transformer (Template.tla), model-checked against an implementation-shaped model of the '
          'subn() walk (TemplateMC.tla, all abstract trees <= 3 (quick) / <= 4 (thorough) nodes x label-set patterns x templates '
